@@ -124,4 +124,36 @@ def run (c : Conn) : List Act → Option Conn
     | none => none
     | some c' => run c' as
 
+/-! ### (d) close() and check_for_errors() with a connection error already recorded
+
+`Connection.check_for_errors` with a non-empty error list: (`set_state(CLOSED)`;) `close()`; `raise`.
+`Connection.close()` waits for CLOSED in a loop whose first statement is `check_for_errors()` — the two call each
+other.  The recursion is the source's; `fuel` stands for the interpreter's recursion limit. -/
+
+structure CE where
+  state : Nat := 3
+  socket : Bool := true
+  sent : Nat := 0               -- Connection.Close frames written
+  overflow : Bool := false      -- RecursionError
+deriving DecidableEq, Repr
+
+/-- `close()` entered while an error is recorded; `setsClosed`: does `check_for_errors` mark the connection
+    CLOSED before calling `close()` -/
+def closeE (setsClosed : Bool) : Nat → CE → CE
+  | 0, c => { c with overflow := true }
+  | fuel + 1, c =>
+    let c1 := if c.state ≠ closed then { c with state := Gen.Const.stateClosing } else c
+    let c2 :=
+      if c1.state ≠ closed ∧ c1.socket then
+        -- send_close_connection(); _wait_for_connection_state: check_for_errors() raises at once
+        let c3 := { c1 with sent := c1.sent + 1 }
+        closeE setsClosed fuel (if setsClosed then { c3 with state := closed } else c3)
+      else c1
+    -- except AMQPConnectionError: pass; finally: channels, io.close(), CLOSED
+    { c2 with state := closed, socket := false }
+
+/-- an operation's `check_for_errors()` with an error recorded -/
+def checkE (setsClosed : Bool) (fuel : Nat) (c : CE) : CE :=
+  closeE setsClosed fuel (if setsClosed then { c with state := closed } else c)
+
 end Amqp.Close
